@@ -10,8 +10,24 @@
 #include "psc/types/type_definitions.h"
 #include "psc/types/types.h"
 
+static PSC::int_t parseIntegerLiteral(const Token &token) {
+    try {
+        return std::stol(token.value);
+    } catch (const std::out_of_range&) {
+        throw PSC::SyntaxError(token, "Integer literal out of range");
+    }
+}
+
+static PSC::real_t parseRealLiteral(const Token &token) {
+    try {
+        return std::stod(token.value);
+    } catch (const std::out_of_range&) {
+        throw PSC::SyntaxError(token, "Real literal out of range");
+    }
+}
+
 IntegerNode::IntegerNode(const Token &token)
-    : Node(token), valueInt(std::stol(token.value))
+    : Node(token), valueInt(parseIntegerLiteral(token))
 {}
 
 std::unique_ptr<NodeResult> IntegerNode::evaluate(PSC::Context&) {
@@ -20,7 +36,7 @@ std::unique_ptr<NodeResult> IntegerNode::evaluate(PSC::Context&) {
 
 
 RealNode::RealNode(const Token &token)
-    : Node(token), valueReal(std::stod(token.value))
+    : Node(token), valueReal(parseRealLiteral(token))
 {}
 
 std::unique_ptr<NodeResult> RealNode::evaluate(PSC::Context&) {
@@ -58,9 +74,22 @@ inline PSC::Date makeDate(const std::string &dateStr) {
         else yearStr += c;
     }
 
-    std::chrono::day day(std::stoul(dayStr));
-    std::chrono::month month(std::stoul(monthStr));
-    std::chrono::year year(std::stoul(yearStr));
+    // an invalid date: evaluating the literal reports "Invalid Date!"
+    const std::chrono::year_month_day invalid(std::chrono::year(0), std::chrono::month(0), std::chrono::day(0));
+    unsigned long d, m, y;
+    try {
+        d = std::stoul(dayStr);
+        m = std::stoul(monthStr);
+        y = std::stoul(yearStr);
+    } catch (const std::logic_error&) {
+        return PSC::Date(invalid);
+    }
+    // the chrono types narrow their argument: check the range first
+    if (d > 31 || m > 12 || y > 32767) return PSC::Date(invalid);
+
+    std::chrono::day day((unsigned int) d);
+    std::chrono::month month((unsigned int) m);
+    std::chrono::year year((int) y);
 
     return PSC::Date(std::chrono::year_month_day(year, month, day));
 }
